@@ -296,6 +296,11 @@ def generate(ctx):
         scen = []
         for si in range(len(sigs)):
             gen_scenarios(rng, sigs, si, ctx.n(8, 12), scen)
+        # regression (fixed finding onerror_bad_value): body fails, error=1, onerror returns an unconvertible value
+        sigs.append(dict(args=["int"], res="uint32_t", consts=[3]))
+        for bad in (["int", 1 << 32], ["str", [97]]):
+            scen.append(dict(id=len(scen), sig=len(sigs) - 1, path="callback", body=["raise"], error=["int", 1],
+                             onerror=["ret", bad], wide=False))
         batches.append(dict(kind="batch", tag="b%d" % b, sigs=sigs, scenarios=scen))
     # ASan smoke (every tier): results at the buffer-size boundary (double _Complex / long double / struct / float _Complex
     # with 0 and 1 arguments, value / error value / zero fill), and the last-argument double _Complex store (8 bytes past `a`)
@@ -403,13 +408,6 @@ def pyret_lit(t, spec, gbuf):
 def finding_key(sig, sc, gbuf=0):
     if sc["path"] == "externpy" and "double _Complex" in sig["args"]:
         return "double_complex_arg"
-    R = sig["res"]
-    k = ckind(R)
-    zero_ext = (k == 'int' and not cc.INTS[R][1]) or k in ('bool', 'char')
-    if (sc["path"] == "callback" and zero_ext and csize(R) < 8 and sc["onerror"][0] == "ret"
-            and sc["onerror"][1] != ["none"] and enc(R, sc["onerror"][1], gbuf) is None
-            and (sc["body"][0] == "raise" or enc(R, sc["body"][1], gbuf) is None)):
-        return "onerror_bad_value"
     return None
 
 
@@ -506,10 +504,7 @@ def evaluate_batch(ctx, batch, asan):
             gotm = bytes(b if k else 0 for b, k in zip(got[:n], m))
             wantm = bytes(b if k else 0 for b, k in zip(want["out"], m))
             if gotm != wantm or got[n:] != b"\xee" * (64 - n):
-                k2 = key
-                if key == "onerror_bad_value" and (any(gotm) or got[n:] != b"\xee" * (64 - n)):
-                    k2 = None          # the known defect yields exactly a zeroed result
-                ctx.violation(case, "C caller received %s, expected %s: %s" % (got[:max(n, 1)].hex(), want["out"].hex(), describe(sig, sc)), k2)
+                ctx.violation(case, "C caller received %s, expected %s: %s" % (got[:max(n, 1)].hex(), want["out"].hex(), describe(sig, sc)), key)
                 continue
             if r["printed"] != want["printed"] or r["onerror_calls"] != want["onerror_calls"]:
                 ctx.violation(case, "%d report(s) through sys.unraisablehook and %d onerror call(s), expected %d and %d: %s"
